@@ -74,6 +74,9 @@ def make_vals(vclass, off, scale, n, nullpat):
     if vclass == "intbig":      # squares (1.6e19) do not fit int64: the known open defect of the int64 sum-of-squares accumulator
         vals = [4_000_000_000 + ((i * 5) % 7) for i in range(n)]
         return np.array(vals, dtype=np.int64), vals
+    if vclass == "intwide":     # as intbig, with a spread far above the rounding bound (epoch-millisecond-like data): a wrapped integer sum of squares cannot hide inside the tolerance
+        vals = [3_000_000_000 + 250_000_000 * (((i * 5) % 7) - 3) for i in range(n)]
+        return np.array(vals, dtype=np.int64), vals
     raise ValueError(vclass)
 
 
@@ -125,7 +128,7 @@ def _variants(n):
 
 
 def _magnitudes():
-    out = [("float", o, s) for o in OFFSETS for s in SCALES] + [("int", o, 1.0) for o in OFFSETS] + [("int", 0.0, 1e3), ("intbig", 4e9, 1.0)]
+    out = [("float", o, s) for o in OFFSETS for s in SCALES] + [("int", o, 1.0) for o in OFFSETS] + [("int", 0.0, 1e3), ("intbig", 4e9, 1.0), ("intwide", 3e9, 1.0)]
     return out
 
 
@@ -158,6 +161,8 @@ def cases(tier, seed):
 
 def extra_cases(tier, seed):
     """one 200-row case per magnitude (the bound grows with n; the cancellation does not)"""
+    for m, mask in enumerate((None, ("bool", [True, True, False, True, True, True]))):
+        yield {"t": "var", "keys": [0, 0, 1, 1, 0, 1], "kkind": "float", "vclass": "intwide", "off": 3e9, "scale": 1.0, "nullpat": [False] * 6, "mask": mask, "sort": True}
     n = 200; keys = [None if i % 17 == 5 else (i * 7) % 3 for i in range(n)]
     for j, (vclass, off, scale) in enumerate(_magnitudes()):
         yield {"t": "var", "keys": keys, "kkind": "float", "vclass": vclass, "off": off, "scale": scale, "nullpat": [i % 13 == 3 for i in range(n)],
